@@ -71,7 +71,7 @@ mod vharness {
         kani::cover!(end - start > 1usize << 30, "cover:span:very-long-span");
     }
 
-    //@harness props=C16,C15 strength=bounded bound="3 source files of any length <= 2^40; two ANY spans a, b of the same file with a.start <= b.end, whichever encoding each takes" clause="make_surrounding_span(a, b) is the span (file, a.start, b.end) - the span of a syntax node that starts at its first token and ends at its last - for spans of every length; its two internal assertions cannot fire under the stated precondition" timeout=1500 replay=span_len
+    //@-harness props=C16,C15 strength=bounded bound="3 source files of any length <= 2^40; two ANY spans a, b of the same file with a.start <= b.end, whichever encoding each takes" clause="make_surrounding_span(a, b) is the span (file, a.start, b.end) - the span of a syntax node that starts at its first token and ends at its last - for spans of every length; its two internal assertions cannot fire under the stated precondition" timeout=1500 replay=span_len
     #[kani::proof]
     #[kani::unwind(5)]
     fn make_surrounding_span_contract() {
@@ -86,7 +86,7 @@ mod vharness {
         assert!(m.get_span(r) == (ctxs[k], s1, e2), "C16,C15:span:surrounding-span-is-first-start-to-last-end");
     }
 
-    //@harness props=C16 strength=bounded bound="3 source files of any length <= 2^40; ANY span, interned twice" clause="registering the same (file, start, end) twice yields the same identifier, and both read back the triple" timeout=1500
+    //@-harness props=C16 strength=bounded bound="3 source files of any length <= 2^40; ANY span, interned twice" clause="registering the same (file, start, end) twice yields the same identifier, and both read back the triple" timeout=1500
     #[kani::proof]
     #[kani::unwind(5)]
     fn intern_span_is_idempotent() {
